@@ -87,18 +87,22 @@ impl WaitGroup {
 
     // Slow path: Wait for notification.
     loop {
-      // Wait until notified. notified() consumes a permit.
-      self.notify_on_zero.notified().await;
+      // Register as a waiter *before* re-checking the count: `notify_waiters()` only wakes
+      // futures that are already registered, so a `done()` landing between the check and the
+      // await would otherwise be lost.
+      let notified = self.notify_on_zero.notified();
+      tokio::pin!(notified);
+      notified.as_mut().enable();
 
-      // Check count again after notification (spurious wakeup or race check).
       if self.count.load(Ordering::Acquire) == 0 {
         tracing::trace!("WaitGroup::wait() released after notification");
         return;
       }
-      tracing::trace!("WaitGroup::wait() woke, but count is non-zero; re-waiting");
       #[cfg(rzmq_verif)]
       crate::verif::sched::point("wg.wait.loop_checked");
-      // If count is still non-zero, loop and wait again.
+
+      notified.await;
+      tracing::trace!("WaitGroup::wait() woke; re-checking count");
     }
   }
 
